@@ -1,19 +1,19 @@
 CONSTANTS
-  NA = 2
+  NA = 3
   LockOf0 <- L12
   MaxOps = 2
-  MaxSec = 2
+  MaxSec = 1
   Timeouts = TRUE
   Handoff = TRUE
   Eager = FALSE
   Fifo = FALSE
-  MaxWait = 2
+  MaxWait = 3
   UniqueVals = TRUE
   Ghost = TRUE
-  Mut = "no-restore"
-  MaxDie = 0
+  Mut = "close-release"
+  MaxDie = 1
   EdgeFile = ""
 INIT Init
 NEXT Next
 CHECK_DEADLOCK TRUE
-INVARIANTS TypeOK Serializable QuiescentAgree NoLeak NoIndefiniteBlock
+INVARIANTS Serializable
